@@ -128,7 +128,7 @@ class Evaluator:
             text = " ".join(tstrs)
             rec = {"lang": lang, "e": e, "text": text, "strs": strs, "spec_links": sl, "labels_ok_pos": ok_labels,
                    "wf": chk[0] == b"1", "decl_like": chk[1] == b"1", "labels_ok": chk[2] == b"1", "thm": chk[3] == b"1",
-                   "stage6_premises": chk[0] == b"1" and chk[2] == b"1" and chk[4] == b"1" and chk[6] == b"0"}
+                   "stage6_premises": chk[0] == b"1" and chk[2] == b"1" and chk[4] == b"1"}
             rec["spec_tree"] = G.canon_tree(strs, sl)
             recs.append(rec)
             hl.append([lang.encode(), G.PRELUDE.encode(), text.encode()])
